@@ -25,8 +25,9 @@ PROP = dict(
         obl('C19.riemann2d.states', M, ['%sr2d_%s_states' % (T, p) for p in PAT], models=['R2d' + p.upper() for p in PAT]),
         obl('C19.riemann2d.consistency', M, ['%sr2d_%s_consistent' % (T, p) for p in PAT] + [T + 'ReportedConsistent.speed'],
             models=['R2d' + p.upper() for p in PAT], oracle=o_rad.r2_consistency),
-        # the wave pattern is an ATOM of the theorems: oracle only
-        obl('C19.riemann2d.pattern', None, [], oracle=o_rad.r2_pattern),
+        # the wave pattern and the shock positions are ATOMS of the theorems: oracle only (both are FINDINGS for inflow angles != 0)
+        obl('C19.riemann2d.pattern', None, [], oracle=o_rad.r2_pattern, finding=True),
+        obl('C19.riemann2d.regions', None, [], oracle=o_rad.r2_regions, finding=True),
     ],
     corr_models=[],
     oracle_budget=1.5,
